@@ -99,16 +99,23 @@ def selects (s : Spec) (x : Item) (tx : ItemType) : Bool :=
 def localSpecs (a : Item) : List Spec :=
   (running u d a).flatMap fun e => (e.mods.filter (·.domain != 4)).map fun m => ⟨a, e, m, none⟩
 
+/-- Well-formed warfare-buff payload: a target-domain modifier whose source is one of the warfare-buff
+attributes and whose target attribute is the target of one of the universe's buff templates (every modifier
+the service builds from a template is like that).  Anything else in `Dyn.bspecs` is ignored, so that the
+dependency graph of *every* dynamic state is ranked by `rankWF` (the driver rejects such a payload line). -/
+def bspecOK (m : Modifier) : Bool :=
+  m.domain == 4 && buffAttrs.contains m.srcAttr && u.buffs.any (·.tgtAttr == m.tgtAttr)
+
 /-- Projected modifiers of effect `e` of item `a`: its own target-domain modifiers and, for a fleet-boost
 effect, the registered warfare-buff modifiers (`__generate_projected_affectors`). -/
 def projMods (a : Item) (e : Effect) : List Modifier :=
-  (e.mods.filter (·.domain == 4)) ++ (if e.isBuff then (d.bspecs a.id e.id).filter (·.domain == 4) else [])
+  (e.mods.filter (·.domain == 4)) ++ (if e.isBuff then (d.bspecs a.id e.id).filter (bspecOK u) else [])
 
 /-- Projected specs of the running projectable / fleet-boost effects of `a`, one per recorded target. -/
 def projSpecs (a : Item) : List Spec :=
   (running u d a).flatMap fun e =>
     if e.category == 2 || e.isBuff then
-      (targetsOf cfg d a e).flatMap fun t => (projMods d a e).map fun m => ⟨a, e, m, some t⟩
+      (targetsOf cfg d a e).flatMap fun t => (projMods u d a e).map fun m => ⟨a, e, m, some t⟩
     else []
 
 def allSpecs : List Spec := cfg.items.flatMap fun a => localSpecs u d a ++ projSpecs u cfg d a
